@@ -746,7 +746,10 @@ def gen_level(rng, T, app, opts):
                 p.eb_leaf = tg                                          # "enabled by" on a leaf (scan_deps reads it)
     lv.ports = list(leaves)
     # rSelf(..., rEnabledBy(x)): the table's own switch
-    if T > 0 and rng.random() < opts.get("p_self", 0.0):
+    # (on the ROOT table only when opts["p_self0"] asks for it: scan_deps reaches the root's "self:" from the
+    #  iteration of a root-level port, rel2abs("self:", "/x") = "/self:" - the walk never visits "" as a directory)
+    if (T > 0 and rng.random() < opts.get("p_self", 0.0)) or \
+       (T == 0 and opts.get("p_self0", 0.0) and rng.random() < opts["p_self0"]):
         # (a switch whose own default depended on a selector it disables would make the application
         #  ill formed: the selector is not saved while the switch is off - wf_app, notes/C12.md stage 4)
         togg = [p for p in leaves if p.kind == "t" and p.fid != lv.enabler and p.depends is None]
